@@ -25,7 +25,14 @@ HOSTILE = ['', '.', '..', '...', '/', 'a/', '/a', 'a//b', '../x', '..\\x',
            '../bob/new', '/etc', '/dev/shm', '....', '. ', ' ..', '../',
            '..//bob', 'INBOX/', 'INBOX//', 'INBOX/.', 'inbox/', 'Inbox',
            'INBOX', 'INBOX/INBOX', '/INBOX', 'INBOX\\', 'Box/', 'Box//',
-           'Box/Sub/', 'bob/', '../bob/', 'INBOX/Box', 'INBOX/ ', 'INBOX /']
+           'Box/Sub/', 'bob/', '../bob/', 'INBOX/Box', 'INBOX/ ', 'INBOX /',
+           # look-alikes that a normalisation step would turn into . .. /
+           '\u2025', '\u2025/bob', '\u2025/bob/cur', '\uff0e\uff0e/bob',
+           '\u2024\u2024/bob', '.\uff0e/bob', '\uff0f' + 'etc',
+           'a\uff0f../bob', '\uff0fdev\uff0fshm', 'Box/\u2025/\u2025/bob',
+           '\u2215bob', '..\u2044bob', '\u2025\u2215bob', 'bo\u0062',
+           '\u3002\u3002/bob', '\ufe52\ufe52/bob', '\u2026/bob',
+           'Box/\uff0e\uff0e/\uff0e\uff0e/foreign', '\u2025/foreign']
 PLAIN = ['Box', 'Box/Sub', 'Work', 'a', 'a/b']
 
 
@@ -262,10 +269,11 @@ class C08(Profile):
             'commands per case, every command that takes a mailbox, '
             'reference or pattern (CREATE, DELETE, RENAME both positions, '
             'SELECT, EXAMINE, STATUS, SUBSCRIBE, UNSUBSCRIBE, LIST, LSUB, '
-            'APPEND, COPY, MOVE) with names from 75 hostile shapes (empty, '
+            'APPEND, COPY, MOVE) with names from 94 hostile shapes (empty, '
             '., .., leading/trailing/doubled delimiters, ../bob, path '
             'separators, NUL, 300 bytes, non-ASCII, modified-UTF-7 spellings '
-            'of "..", names of maildir control files) or random '
+            'of "..", Unicode look-alikes of . .. and /, names of maildir '
+            'control files) or random '
             'compositions. Oracle 1 (SimFS monitor): every path passed to a '
             'file-system call made for alice\'s connection stays inside '
             'base/alice (strictly inside for remove/rmdir/rename); oracle 2: '
